@@ -41,7 +41,6 @@ Shapes are bounded (box in the evidence); values are generic, so every shape is 
 from __future__ import annotations
 
 import ast
-import itertools
 
 from qstatic.alg import Poly, SQ, SC, P
 from qstatic.dom_sym import SymArr, sym_quat, sym_real, arrays_same, first_diff, mk
@@ -49,7 +48,7 @@ from qstatic.interp import Instance, Env
 from qstatic.src import AnalysisError
 from .common import (new_interp, sparse_from_dense, planes_of, quat_from_planes, ref_matmul, ref_hermitian,
                      ref_fro2, run_guarded, short)
-from .common2 import indices, signed_atom, sumsq_real, sumsq_any, atoms_of, transpose2, conj_arr, is_symarr
+from .common2 import indices, signed_atom, sumsq_real, sumsq_any, transpose2, conj_arr, is_symarr
 
 LEVEL = "other"
 EXPLANATION = ("Abstract interpretation (AST only) of real_expand / real_contract / Realp / A2A0123 / "
